@@ -45,7 +45,11 @@ def emit_ops(cb, ops, fresh=None, surface="expr"):
 
     for op in ops:
         k = op[0]
-        if k == "fresh":
+        if k == "reserve":
+            name = cb.fresh_var_name(op[1])
+            if fresh is not None:
+                fresh.append((op[1], name))
+        elif k == "fresh":
             name = cb.fresh_var_name(op[1])
             if fresh is not None:
                 fresh.append((op[1], name))
